@@ -3947,7 +3947,11 @@ func (a *Association) sendPayloadData(ctx context.Context, chunks []*chunkPayloa
 			a.lock.Unlock()
 			select {
 			case <-ctx.Done():
-				return ctx.Err()
+				if err := ctx.Err(); err != nil {
+					return err
+				}
+				// the deadline was re-armed after it had fired: nothing was queued, so
+				// returning nil here would report a write that never happened. Keep waiting.
 			case <-writeNotify:
 			}
 			a.lock.Lock()
